@@ -230,3 +230,56 @@ def obligations(facts):
                     continue
                 out.append(ob("validators", k, cur[key]["pat"], "violated", "the reader no longer performs the validation `%s`: a corrupted or foreign image field that this check rejected now reaches its uses (shift amounts, sizes, indices, mode switches)" % what, cur[key]["qname"]))
     return out
+
+
+def checker_inventory(facts):
+    """argument / state checkers: functions whose whole body is a list of `if (cond) throw` guards (is_pure_validator), whatever
+    they are called and whoever calls them (checkLgK, checkNumStdDev, check_k, check_weight, ...).  key -> sorted guard items
+    with the parameters named by position"""
+    fns = functions_by(facts)
+    triggers.set_helpers(fns)
+    by_pat = {f["pat"]: f for f in fns.values()}
+    inv = {}
+    for pat, fn in sorted(fns.items()):
+        if fn.get("body") is None or fn["name"] in READER_NAMES or not fn.get("params"):
+            continue
+        if not is_pure_validator(fn, by_pat):
+            continue
+        pairs = sorted(_items_of(fn, by_pat, wide=True), key=lambda x: x[0])
+        # a compound condition is listed in its wide form (operators included)
+        items = sorted((w.replace("wide|", "guard:wide|", 1) if (i.startswith("guard:complex") and w) else i) for i, w in pairs if not i.startswith("call:"))
+        if not items:
+            continue
+        key = "%s::%s(%d)" % (short(fn.get("rect") or ""), fn["name"], len(fn["params"]))
+        if key in inv:
+            key = "%s@%s" % (key, str(fn["pat"]).split("/")[0])
+        inv[key] = {"items": items, "pat": fn["pat"], "qname": fn["qname"], "file": str(fn["pat"])}
+    return inv
+
+
+def checker_obligations(facts, families=None):
+    sp = json.load(open(os.path.join(VERIF, "spec", "checkers.json")))["checkers"]
+    cur = checker_inventory(facts)
+    out = []
+    for key, want in sorted(sp.items()):
+        if families is not None and not any(want["file"].startswith(f + "/") for f in families):
+            continue
+        k0 = "checker:" + key
+        if key not in cur:
+            out.append(ob("validators.checker", k0, "", "unrecognised", "checker %s is no longer a plain list of throwing guards (or is gone): re-review spec/checkers.json" % key, ""))
+            continue
+        got = list(cur[key]["items"])
+        for j, item in enumerate(want["items"]):
+            k = "%s:%s#%d" % (k0, item.split("|")[0], j)
+            if item in got:
+                got.remove(item)
+                out.append(ob("validators.checker", k, cur[key]["pat"], "discharged", item, cur[key]["qname"]))
+                continue
+            shape = lambda it: (it.split("|")[1] if it.count("|") >= 1 else "")
+            near = [g for g in got if shape(g) == shape(item)]
+            if near:
+                got.remove(near[0])
+                out.append(ob("validators.checker", k, cur[key]["pat"], "violated", "the accepted range of %s changed: guard `%s` now reads `%s` (same operands, another operator / constant): values the callers rely on being accepted are rejected, or values every user of the checked argument assumes impossible get through" % (key, item.split(":", 1)[1], near[0].split(":", 1)[1]), cur[key]["qname"]))
+            else:
+                out.append(ob("validators.checker", k, cur[key]["pat"], "violated", "%s no longer rejects on `%s`: values every user of the checked argument assumes impossible get through" % (key, item.split(":", 1)[1]), cur[key]["qname"]))
+    return out
